@@ -236,7 +236,7 @@ func c13Check(c c13Case) error {
 				}
 			}
 		case "dump":
-			n := int(op.End-op.Start) + 1
+			n := int(int64(op.End) - int64(op.Start) + 1) // 0 for the empty range end = start-1
 			const sentinel, canary = 0xA5, 0x5A
 			buf := make([]byte, n+8)
 			for j := range buf {
@@ -389,7 +389,10 @@ func c13Gen(t *rapid.T) c13Case {
 			c.Ops = append(c.Ops, c13Op{Kind: "write", Start: addr("a"), Val: rapid.Byte().Draw(t, "val")})
 		default:
 			s := addr("s")
-			ln := rapid.IntRange(1, 80).Draw(t, "dump-len")
+			ln := rapid.IntRange(0, 80).Draw(t, "dump-len")
+			if ln == 0 && s == 0 {
+				ln = 1
+			}
 			e := s + uint32(ln) - 1
 			if e > 0xFFFFFF {
 				e = 0xFFFFFF
@@ -491,11 +494,101 @@ func c13RealCheck(c c13RealCase) error {
 	return nil
 }
 
+// c13LongCheck: a history of 70000 Attach calls on one bus (a 16-byte window re-attached alternately to two memories);
+// a range attached at the start, a hole and the window itself are probed on the way and around the 2^16-th call.
+func c13LongCheck() error {
+	b, _ := bus.New()
+	st := []*c13Stub{{id: 0, w: map[uint32]byte{}}, {id: 1, w: map[uint32]byte{}}, {id: 2, w: map[uint32]byte{}}}
+	if err := b.Attach(st[2], "fixed", 0x001000, 0x001FFF); err != nil {
+		return err
+	}
+	probe := func(i int, own *c13Stub) error {
+		for _, p := range []struct {
+			a   uint32
+			own *c13Stub
+		}{{0x004003, own}, {0x001234, st[2]}, {0x001FFF, st[2]}, {0x008000, nil}, {0x000FFF, nil}, {0x004010, nil}} {
+			var got byte
+			pe := rig.Safe(func() error { got = b.EaRead(p.a); return nil })
+			switch {
+			case p.own == nil && pe == nil:
+				return fmt.Errorf("after %d Attach calls a read of the never-attached address $%06X returns %02x instead of failing", i, p.a, got)
+			case p.own != nil && (pe != nil || got != p.own.peek(p.a)):
+				return fmt.Errorf("after %d Attach calls a read of $%06X gives %02x (%v), memory #%d attached there holds %02x", i, p.a, got, pe, p.own.id, p.own.peek(p.a))
+			}
+		}
+		buf := []byte{0xA5, 0xA5, 0xA5, 0xA5, 0xA5, 0xA5, 0xA5, 0xA5}
+		if n := b.EaDump(0x003FFC, 0x004003, buf); n != 8 {
+			return fmt.Errorf("after %d Attach calls EaDump($003FFC,$004003) returned %d", i, n)
+		}
+		for j, v := range buf {
+			want := byte(0xA5)
+			if j >= 4 {
+				want = own.peek(0x003FFC + uint32(j))
+			}
+			if v != want {
+				return fmt.Errorf("after %d Attach calls EaDump($003FFC,$004003) position %d holds %02x, want %02x", i, j, v, want)
+			}
+		}
+		return nil
+	}
+	for i := 1; i <= 70000; i++ {
+		if err := b.Attach(st[i&1], "window", 0x004000, 0x00400F); err != nil {
+			return fmt.Errorf("Attach #%d: %v", i, err)
+		}
+		if i%4099 == 0 || (i >= 65530 && i <= 65540) || i == 70000 || i == 255 || i == 256 || i == 257 {
+			if err := probe(i+1, st[i&1]); err != nil {
+				return err
+			}
+		}
+	}
+	return nil
+}
+
+// c13BigDumpCheck: dumps of 64 KiB and more over a bus whose only memory starts in the middle of a bank.
+func c13BigDumpCheck() error {
+	b, _ := bus.New()
+	ram := &c13Stub{id: 3, w: map[uint32]byte{}}
+	if err := b.Attach(ram, "ram", 0x012000, 0x013FFF); err != nil {
+		return err
+	}
+	for _, r := range [][2]uint32{{0x010000, 0x02000F}, {0x010000, 0x01FFFF}, {0x00FFF1, 0x020000}, {0x011FFF, 0x014000}} {
+		n := int(r[1]-r[0]) + 1
+		buf := make([]byte, n)
+		for i := range buf {
+			buf[i] = 0xA5
+		}
+		var got int
+		if pe := rig.Safe(func() error { got = b.EaDump(r[0], r[1], buf); return nil }); pe != nil {
+			return fmt.Errorf("EaDump($%06X,$%06X) failed: %v", r[0], r[1], pe)
+		}
+		if got != n {
+			return fmt.Errorf("EaDump($%06X,$%06X) returned %d, want %d", r[0], r[1], got, n)
+		}
+		for i, v := range buf {
+			a := r[0] + uint32(i)
+			want := byte(0xA5)
+			if a >= 0x012000 && a <= 0x013FFF {
+				want = ram.peek(a)
+			}
+			if v != want {
+				return fmt.Errorf("EaDump($%06X,$%06X) position %d (address $%06X) holds %02x, a single read gives %02x (memory attached over $012000-$013FFF only)", r[0], r[1], i, a, v, want)
+			}
+		}
+	}
+	return nil
+}
+
 func init() {
 	rig.RegisterReplay("C13", func(data []byte) error {
 		var rf rig.ReplayFile
 		if err := json.Unmarshal(data, &rf); err != nil {
 			return err
+		}
+		if rf.Kind == "long-history" {
+			return c13LongCheck()
+		}
+		if rf.Kind == "big-dump" {
+			return c13BigDumpCheck()
 		}
 		if rf.Kind == "realmem" {
 			var rc c13RealCase
@@ -532,6 +625,12 @@ func TestC13(t *testing.T) {
 					}
 				}
 				ev.ClassN("dumps-over-memory.ROM/memory.RAM-objects", int64(n))
+				r.CheckSweep("long-history", struct{}{}, c13LongCheck)
+				ev.Case(true, rig.Hash64("long-history"), nil)
+				ev.ClassN("history-of-70000-Attach-calls(probes)", 30)
+				r.CheckSweep("big-dump", struct{}{}, c13BigDumpCheck)
+				ev.Case(true, rig.Hash64("big-dump"), nil)
+				ev.ClassN("dumps-of-64KiB-and-more", 4)
 			}
 			r.Rapid("rapid", rig.Pick(3000, 12000), func(t *rapid.T) {
 				c := c13Gen(t)
@@ -563,6 +662,9 @@ func TestC13(t *testing.T) {
 							ev.Class(op.Kind + "-unattached")
 						}
 					case "dump":
+						if op.End+1 == op.Start {
+							ev.Class("dump-of-an-empty-range")
+						}
 						att, hole := false, false
 						for a := op.Start; a <= op.End; a++ {
 							if has(a >> 4) {
